@@ -69,6 +69,7 @@ func reopen(ctr *hx.Trace, img string, x *run, id int, why string, corrupt bool)
 	}
 	files := listFiles(filepath.Join(base, x.label))
 	altered := ""
+	var alteredSize int64
 	if corrupt {
 		// flip one byte in the body of a closed (non-newest) segment
 		var segs []string
@@ -96,6 +97,7 @@ func reopen(ctr *hx.Trace, img string, x *run, id int, why string, corrupt bool)
 		data[16+x.r.Intn(len(data)-16)] ^= 0x41
 		os.WriteFile(p, data, 0o644)
 		altered = victim
+		alteredSize = int64(len(data))
 	}
 	ch := syncer.NewStoreChannel(syncer.StorerConf{InputId: "verif", Dir: base, MaxSize: x.maxSize, LogSize: 16 + x.logSize})
 	defer ch.Close()
@@ -108,8 +110,8 @@ func reopen(ctr *hx.Trace, img string, x *run, id int, why string, corrupt bool)
 	var alteredLeft, alteredRight int64 = -1, -1
 	if altered != "" {
 		fmt.Sscanf(altered, "%d.aof", &alteredLeft)
-		fi, _ := os.Stat(filepath.Join(base, x.label, altered))
-		alteredRight = alteredLeft + fi.Size() - 16
+		// (the reopened cache may have removed the file already)
+		alteredRight = alteredLeft + alteredSize - 16
 	}
 	ev["al"], ev["ar"] = alteredLeft, alteredRight
 	// every offset from two below the range to two above it
